@@ -242,7 +242,16 @@ def bundle(mol, es, sett, charges, mults, sp2_tol=None, do_fock=True):
         mon["etot_compared"] += 1
         # the excitation energy enters Etot either as the Davidson Ritz value or as the Rayleigh quotient of the returned
         # amplitude; each lies within the residual tolerance of the eigenvalue, so the two may differ by 2 * tolerance
-        if upd("etot_assembly", abs(Etot[b] - (Eelec[b] + Enuc[b] + exc)), TOL_ETOT + 2.0 * cis_tol):
+        # ... and the Rayleigh-quotient route (calc_cis_energy, used when the force comes from reverse-mode
+        # differentiation) evaluates the excitation energy from F and P instead of orbital-energy differences: the two
+        # agree only up to the occupied-virtual Fock block left by the SCF stopping rule, first order in
+        # max|dP| <= 15 eps times a two-electron scale of 20 eV (K = 300 eV, same constant as C04's charge bound)
+        scf_allow = 0.0
+        if active[b] > 0:
+            cv = list(sett.get("scf_converger", [2]))
+            amp_e = 1.0 / (1.0 - cv[1]) if (cv[0] == 0 and len(cv) > 1 and 0 < cv[1] < 1) else 1.0
+            scf_allow = 300.0 * float(sett.get("scf_eps", 0.0)) * amp_e
+        if upd("etot_assembly", abs(Etot[b] - (Eelec[b] + Enuc[b] + exc)), TOL_ETOT + 2.0 * cis_tol + scf_allow):
             viol.append({"clause": "etot-assembly", "mech": None,
                          "detail": dict(wit, Etot=float(Etot[b]), Eelec=float(Eelec[b]), Enuc=float(Enuc[b]), excitation=exc)})
         en = enuc_pairs(method, real, X[:n])
